@@ -15,12 +15,12 @@ def register(prop, J):
               "served to the generated client (an error, never a panic); (e) thorough tier: native coverage-guided fuzzing "
               "(go test -fuzz) over (bytes, entry point, shape) seeded with the hostile constants and valid encodings of corpus values",
          jobs=[
-             J("hostile-v2", "v2", "codecprops", "^TestC04", checks=(20000, 1000000), shards=(4, 16), prepare="prepare_codec",
+             J("hostile-v2", "v2", "codecprops", "^TestC04", checks=(20000, 4000000), shards=(4, 16), prepare="prepare_codec",
                extra_pkgs=["dyn", "gendrv"], timeout=(900, 3000)),
-             J("hostile-http-v2", "v2", "resprops", "^TestC04", checks=(8000, 400000), shards=(4, 16), prepare="prepare_resources",
+             J("hostile-http-v2", "v2", "resprops", "^TestC04", checks=(8000, 1600000), shards=(4, 16), prepare="prepare_resources",
                extra_pkgs=["dyn", "gendrv"], timeout=(1200, 3000)),
              # (appended after the v2 jobs: the position of a job determines its derived seeds)
-             J("hostile-v1", "v1", "codecprops", "^TestC04", checks=(12000, 500000), shards=(4, 16), prepare="prepare_codec",
+             J("hostile-v1", "v1", "codecprops", "^TestC04", checks=(12000, 2000000), shards=(4, 16), prepare="prepare_codec",
                extra_pkgs=["dyn", "gendrv"], timeout=(900, 3000)),
              # native coverage-guided fuzzing (thorough tier only; a campaign cannot be pinned to a seed)
              J("fuzz-v2", "v2", "codecprops", "^$", tiers=("thorough",), shards=(1, 1), prepare="prepare_codec",
